@@ -25,7 +25,7 @@ import (
 func init() {
 	Registry["C08"] = &Check{
 		Scenarios: c08Scenarios,
-		Rule: "Run-time registrations at every instant of the dispatch of three messages (by name, by index, catch-all; the RWMutex shim gives a waiting writer precedence over new readers, as sync.RWMutex does). A handler of connection A blocked inside Parser.Load of a private dictionary (package dict is part of the instrumented build) while connection B receives. Two connections send requests no handler matches while nobody reads ErrorReports, then a handled one each. Two relay scenarios with a multistream (SCTP) connection B, forwarded to with Message.WriteTo and with the raw Conn.Write adaptor. Two relay scenarios: a handler of connection A blocks inside a Write to connection B (whose peer has stopped reading) while B keeps receiving - under a Server with and without ReadTimeout / WriteTimeout. In the blocked-handler mode (two of the six arrival patterns) an application goroutine polls ServeMux.ErrorReports() at every instant. Server.Serve on a scripted listener with two connections (both accepted, or one accepted and one attached with diam.NewConn); three requests per connection (re-auth, device-watchdog, capabilities-exchange, in that order) delivered as {one segment, one segment per message, split at the header/body border, first message in 10-byte pieces, first message one byte at a time}; instrumented handlers record enter/exit around a scheduling point and answer; variants: plain, and the first handler on connection A blocked for ever; in one arrival pattern the first handler of connection B requests CloseNotify (so the rest of B's messages pass through the reader switch); one arrival pattern runs on a zero Server{} (DefaultServeMux, default dictionary); every schedule up to preemption bound 3 (thorough 6). The environment is eager (all fragments queued before the server starts; a Read never crosses a fragment boundary), because the arrival instant of a fragment is unobservable to a per-connection single-threaded reader; what is explored is every interleaving of the accept loop, the per-connection readers and the handlers.",
+		Rule: "The peer hangs up right behind a burst of three requests whose first handler requested CloseNotify (one segment, one segment per request, the first request alone and the other two in one segment). Run-time registrations at every instant of the dispatch of three messages (by name, by index, catch-all; the RWMutex shim gives a waiting writer precedence over new readers, as sync.RWMutex does). A handler of connection A blocked inside Parser.Load of a private dictionary (package dict is part of the instrumented build) while connection B receives. Two connections send requests no handler matches while nobody reads ErrorReports, then a handled one each. Two relay scenarios with a multistream (SCTP) connection B, forwarded to with Message.WriteTo and with the raw Conn.Write adaptor. Two relay scenarios: a handler of connection A blocks inside a Write to connection B (whose peer has stopped reading) while B keeps receiving - under a Server with and without ReadTimeout / WriteTimeout. In the blocked-handler mode (two of the six arrival patterns) an application goroutine polls ServeMux.ErrorReports() at every instant. Server.Serve on a scripted listener with two connections (both accepted, or one accepted and one attached with diam.NewConn); three requests per connection (re-auth, device-watchdog, capabilities-exchange, in that order) delivered as {one segment, one segment per message, split at the header/body border, first message in 10-byte pieces, first message one byte at a time}; instrumented handlers record enter/exit around a scheduling point and answer; variants: plain, and the first handler on connection A blocked for ever; in one arrival pattern the first handler of connection B requests CloseNotify (so the rest of B's messages pass through the reader switch); one arrival pattern runs on a zero Server{} (DefaultServeMux, default dictionary); every schedule up to preemption bound 3 (thorough 6). The environment is eager (all fragments queued before the server starts; a Read never crosses a fragment boundary), because the arrival instant of a fragment is unobservable to a per-connection single-threaded reader; what is explored is every interleaving of the accept loop, the per-connection readers and the handlers.",
 		Assume: []string{"data-race freedom between visible operations (audited separately with -race)"},
 		QuickBudget: 120, ThoroughBudget: 2400,
 	}
@@ -386,6 +386,55 @@ func c08Scenarios(tier string) []*Scenario {
 					Outcome: outcome, Bound: bound, Horizon: 10 * time.Second})
 			}
 		}
+	}
+	// the peer of connection B hangs up right behind a burst of three requests whose first handler
+	// requested CloseNotify: the notifier learns that the peer is gone while two requests are still
+	// buffered. They are still dispatched one at a time, in arrival order.
+	for _, ptB := range []string{"one", "each", "1+2"} {
+		ptB := ptB
+		o := srvOpts{names: []string{"A", "B"}, nmsg: 3, pattern: map[string]string{"A": "each", "B": ptB}, notifyOn: "B"}
+		o.fault = func(name string, c *vnet.Conn, ci int) bool {
+			if name != "B" {
+				return false
+			}
+			if ptB == "1+2" {
+				// the first request alone, the other two in one segment: they pass through the notifier
+				// together, which then finds the end of the stream while both are still buffered
+				c.Deliver(srvReq(ci, 0))
+				c.Deliver(append(srvReq(ci, 1), srvReq(ci, 2)...))
+			} else {
+				srvDeliver(c, ci, 3, ptB)
+			}
+			c.PeerEOF()
+			return true
+		}
+		check := func(s *vs.Sched) string {
+			st := srvSt
+			v, handled := srvAnalyse(st, o.names)
+			for _, n := range o.names {
+				if handled[n] != 3 {
+					v = append(v, fmt.Sprintf("connection %s: %d of 3 messages handled", n, handled[n]))
+				}
+			}
+			if got := fmt.Sprint(answersOn(st.conns["A"])); got != "[1 2 3]" {
+				v = append(v, "answers on connection A: "+got+", expected [1 2 3]")
+			}
+			if st.conns["A"].Closed {
+				v = append(v, "the healthy transport A was closed")
+			}
+			if !st.conns["B"].Closed {
+				v = append(v, "the transport of the connection whose peer hung up was not closed")
+			}
+			if st.served {
+				v = append(v, "Serve returned")
+			}
+			if p := s.Panics(); len(p) > 0 {
+				v = append(v, "panic: "+strings.Join(p, "; "))
+			}
+			return strings.Join(v, " | ")
+		}
+		out = append(out, &Scenario{Name: "dispatch/peer-hangs-up-behind-a-burst/closenotify-active/" + ptB, Body: srvBody(o), Check: check,
+			Outcome: func(s *vs.Sched) string { return strings.Join(srvSt.events, ",") }, Bound: bound, Horizon: 10 * time.Second})
 	}
 	out = append(out, c08RelayBlocked(false, bound), c08RelayBlocked(true, bound))
 	out = append(out, c08RelayBlockedMulti(false, bound), c08RelayBlockedMulti(true, bound))
